@@ -106,6 +106,24 @@ def problems():
             out.append(f"{label} succeeded: MISSING has storage of its own, an attribute can be attached to the singleton")
         except (AttributeError, TypeError):
             pass
+    # the one attribute every object has without storage of its own: its class (assignable between layout-compatible classes)
+
+    class Present:
+        __slots__ = ()
+
+        def __bool__(self):
+            return True
+    original = type(MISSING)
+    try:
+        try:
+            MISSING.__class__ = Present
+            out.append("MISSING.__class__ = <another class with empty __slots__> was accepted: the singleton is now truthy and no "
+                       "longer a Missing")
+        except (AttributeError, TypeError):
+            pass
+    finally:
+        if type(MISSING) is not original:
+            object.__setattr__(MISSING, "__class__", original)
     return out
 
 
